@@ -37,6 +37,7 @@ def imports():
 H = imports()
 prior = H["prior"]
 Sphere, Spheres, RigidCluster = H["Sphere"], H["Spheres"], H["RigidCluster"]
+NOTES = {}
 AlphaModel, ExactModel, MieLens = H["AlphaModel"], H["ExactModel"], H["MieLens"]
 
 FIXED = [1.71, 0.62, 2.53, 3.94, 1.15, 0.86, 4.07, 5.08]     # per-site fixed values
@@ -525,6 +526,40 @@ class Binding:
             shared = (mutable_ids(g2) & mutable_ids(g))
             if shared:
                 fail("NoSharedMutableState", {"n_shared": len(shared), "g": repr(g)})
+            # a dictionary handed to from_parameters is read, not consumed: the same dictionary gives the same
+            # object again (the model's own scatterer, priors and all, and the guess scatterer)
+            NOTES["dict_visits"] = NOTES.get("dict_visits", 0) + 1
+            objs = []
+            if NOTES["dict_visits"] % 8 == 1:       # every eighth visit (each template is visited thousands of times)
+                objs = [g]
+                try:
+                    objs.append(m.scatterer)
+                except Exception:
+                    # Model.scatterer of a rigid cluster whose rotation holds a prior cannot be formed (it would have
+                    # to rotate by a prior); outside the property, noted in DESIGN.md
+                    NOTES["model_scatterer_unavailable"] = NOTES.get("model_scatterer_unavailable", 0) + 1
+                if isinstance(g, Spheres) and len(g.scatterers) >= 2:
+                    objs.append(RigidCluster(g, rotation=(0.1, 0.2, 0.3), translation=(1.0, -2.0, 0.5)))
+            for obj in objs:
+                def guessed(v_):
+                    if hasattr(v_, "guess"):
+                        return v_.guess
+                    if isinstance(v_, (list, tuple)):
+                        return type(v_)(guessed(w_) for w_ in v_)
+                    if isinstance(v_, dict):
+                        return {k_: guessed(w_) for k_, w_ in v_.items()}
+                    return v_
+                pd = {k_: guessed(v_) for k_, v_ in obj.parameters.items()}
+                if "rotation" in pd:        # values other than the object's own
+                    pd["rotation"], pd["translation"] = (0.5, 0.6, 0.7), (0.0, 3.0, 1.0)
+                keys = sorted(pd.keys())
+                r1 = obj.from_parameters(pd)
+                r2 = obj.from_parameters(pd)
+                if sorted(pd.keys()) != keys:
+                    fail("RebuildEqualsOriginal", {"why": "from_parameters removed entries of the caller's dictionary",
+                                                   "before": keys, "after": sorted(pd.keys())})
+                elif not (r1 == r2):
+                    fail("RebuildEqualsOriginal", {"why": "the same dictionary gave two different objects", "class": type(obj).__name__})
         except Exception as e:
             fail("GuessRuns", {"exc": repr(e)})
         # an explicit name that nothing else claims is the parameter's name
@@ -892,6 +927,7 @@ def run(ctx):
     ctx.exhaustive = not quick
     ctx.notes["behaviours_replayed"] = nbeh
     ctx.notes["actions_replayed"] = dict(ACTIONS)
+    ctx.notes.update(NOTES)
     for a in ("AddTie", "AddTieRejected", "AddTieUnknown"):
         if not ACTIONS.get(a):
             raise harness.MachineryError("vacuous replay: no %s edge was exercised" % a)
